@@ -352,7 +352,7 @@ FEATURES = [
     "nillable", "mixed", "recursion", "include", "import", "simple-content", "typed-values", "nested-anonymous", "sequence-repeating", "element-default",
     "qname-value", "binary-values", "abstract-base", "attr-form-override", "element-form-override", "substitution-head-imported", "simple-content-attr-value",
     "restriction", "nested-same-name", "same-type-name-imported", "optional-run", "foreign-child-local-grandchild", "foreign-child-local-grandchild-no-namespace",
-    "choice-single-of-sequence", "mixed-complex-content-restriction", "substitution-member-own-named-type",
+    "choice-single-of-sequence", "mixed-complex-content-restriction", "substitution-member-own-named-type", "child-named-like-root",
 ]
 
 
@@ -520,6 +520,11 @@ def apply_feature(s: Schema, feat: str) -> None:
         inner = Complex(particle=Group("sequence", [Elem("title", SimpleT(base="string"))]), attrs=[Attr("lvl", SimpleT(base="int"))])
         outer = Complex(particle=Group("sequence", [Elem("head", SimpleT(base="string"), min=0), Elem("section", inner, min=0, max=2)]))
         seq.items.append(Elem("section", outer, min=0, max=2))
+    elif feat == "child-named-like-root":
+        # a child whose name differs from the root's only in case, with a structure of its own: two classes want the name Root,
+        # one of them is renamed -- its element name must stay what it was
+        inner = Complex(particle=Group("sequence", [Elem("cv", SimpleT(base="string"), min=0)]), attrs=[Attr("cx", SimpleT(base="int"))])
+        seq.items.append(Elem("Root", inner, min=0, max=2))
     elif feat == "same-type-name-imported":
         # one type name in this namespace and in the imported one, both in use
         s.import_ = s.import_ or Schema()
